@@ -272,6 +272,32 @@ def m_bnum_shift(interp, path, args, ret_ty, callee):
     return IntV(x / (1 << k), ty)
 
 
+@model(r"<impl u(8|16|32|64|128|size)>::is_multiple_of$", "x % y == 0 (y == 0: only 0 is a multiple)")
+def m_is_multiple_of(interp, path, args, ret_ty, callee):
+    x, y = args[0].term, args[1].term
+    cy = concrete(y)
+    if cy is not None and cy != 0:
+        return BoolV(x % cy == 0)
+    return BoolV(z3.If(y == 0, x == 0, x % z3.If(y == 0, 1, y) == 0))
+
+
+@model(r"<impl (BInt<\d+>|BUint<\d+>)>::checked_(shl|shr)$",
+       "shift by a concrete amount: None iff amount >= BITS, else wrapping multiply / floor-divide by 2^k (as std)")
+def m_bnum_checked_shift(interp, path, args, ret_ty, callee):
+    ty = int_ty_of_path(callee)
+    x, k = args[0].term, concrete(args[1].term)
+    lo, hi = int_range(ty)
+    bits = (hi - lo + 1).bit_length() - 1
+    if k is None or k < 0:
+        raise Refuse("bnum checked shift by symbolic amount")
+    rty = ret_ty or "Option<%s>" % ty
+    if k >= bits:
+        return none(rty)
+    if callee.endswith("shl"):
+        return some(rty, IntV(interp.wrap(x * (1 << k), ty), ty))
+    return some(rty, IntV(x / (1 << k), ty))
+
+
 @model(r"^<(BInt<\d+>|BUint<\d+>) as Not>::not$", "bitwise not = -x-1 (signed) / MAX-x (unsigned)")
 def m_bnum_not(interp, path, args, ret_ty, callee):
     ty = norm_ty(re.match(r"^<(.+?) as", norm_ty(callee)).group(1))
@@ -717,7 +743,8 @@ def library_const(interp, name, want_ty):
             bits = 64 * int(m.group(2))
             return IntV(bits if k == "BITS" else bits // 8, norm_ty(want_ty) if want_ty else "u32")
         return IntV({"MIN": lo, "MAX": hi, "ZERO": 0, "ONE": 1, "TWO": 2, "TEN": 10}[k], ty)
-    m = re.match(r"^([iu](?:8|16|32|64|128|size))::(MIN|MAX|BITS)$", n) or \
+    m = re.match(r"^(?:core::num::|std::)?([iu](?:8|16|32|64|128|size))::(MIN|MAX|BITS)$", name.strip()) or \
+        re.match(r"^([iu](?:8|16|32|64|128|size))::(MIN|MAX|BITS)$", n) or \
         re.match(r"^<impl ([iu](?:8|16|32|64|128|size))>::(MIN|MAX|BITS)$", n)
     if m:
         lo, hi = int_range(m.group(1))
